@@ -109,6 +109,11 @@ def run(tier):
                     jobs.append(dict(groups=scenario_groups(api, bool(rej)), options=opts, api=api, cdefs=cdefs, flex_args=fa, knobs=kn,
                                      tag="%s/%s/%s%s" % (api, PATHS[di], "reject" if rej else "plain", "/asan" if san else ""), san=san,
                                      path=PATHS[di], driver_args=["-H", "4000"]))
+    # scanners made with yylex_init_extra(): the same allocations fail (round-5 seed C14-r5m3)
+    for api in ("R", "C99"):
+        opts = ["noyyalloc", "noyyrealloc", "noyyfree"] + (["reentrant"] if api == "R" else ['extra-type="void *"'])   # c99 has yyextra only with extra-type
+        jobs.append(dict(groups=scenario_groups(api, False), options=opts, api=api, cdefs=["VF_LEDGER", "VF_FAULTS", "VF_INIT_EXTRA"], flex_args=[],
+                         knobs={"VF_BUFSIZES": "0,4"}, tag="%s/user/plain/init_extra/asan" % api, san=True, path="user", driver_args=["-H", "4000"]))
     # the start-condition stack grows by reallocation (first growth at the 26th push): every token pushes the current condition
     for api in ("NR", "R", "C99"):
         sarg = ", yyscanner" if api in ("R", "C99") else ""
